@@ -5,6 +5,8 @@ let () =
   | _ :: "load" :: _ -> L_load.run ()
   | _ :: "merge" :: _ -> L_merge.run ()
   | _ :: "uri" :: _ -> L_uri.run ()
+  | _ :: "cast" :: _ -> L_cast.run ()
+  | _ :: "cycles" :: _ -> L_cycles.run ()
   | _ ->
       prerr_endline "usage: oalmodel <layer>";
       exit 2
